@@ -29,7 +29,7 @@ def signature(rule, script, verdict):
 
 def gen(pid, tier, seed):
     rnd = random.Random(seed * 7919 + 3)
-    n = 200 if tier == "quick" else 3000
+    n = 200 if tier == "quick" else 800
     scripts = []
     # loop-core programs on every method, three init/use/deinit cycles
     for s in coregen.gen_scripts(seed, n, prefix="C18c"):
@@ -112,7 +112,7 @@ def run(pid, tier, seed, replay=None):
             # sessions and many pumps stalled at the same time, judged by MonPump's balance rule
             import check_c17
             exe17, _proj = check_c17.build("plain")
-            s17 = check_c17.many_scripts(tier) + check_c17.random_scripts(seed + 3, 300 if tier == "quick" else 5000)
+            s17 = check_c17.many_scripts(tier) + check_c17.random_scripts(seed + 3, 300 if tier == "quick" else 3000)
             i17 = {check_c17.script_id(x): x for x in s17}
             v17, n17 = check_c17.validate(check_c17.run_scripts(exe17, s17, sc, "pumpfd"), sc)
             if len(v17) != len(s17):
